@@ -126,6 +126,17 @@ CLAIMED.update({
         ref='4/C10'),
 })
 
+CLAIMED.update({
+    'C14': dict(
+        text='Bounded model checking of parse_file / parse_text_with_source_file / parse_lines / preprocessor::run / include_files_preprocessor::run with the '
+             'file system stubbed by a symbolic immutable file table: for 8 include-tree shapes (case split) every non-directive line of every file is symbolic '
+             '(arbitrary, possibly malformed); the resulting instruction list is exactly the pasted sequence, every instruction equals its line parsed alone and '
+             'carries its own file and 1-based line, a missing file gives ErrorReadingFile(path), a malformed included line gives its kind with that file and line.',
+        note='Stubs (part of the claim): read_text_file = table look-up; canonicalize = Err or lexical normal form (both explored); Path ops lexical. Free lines '
+             '<= 4 (quick) / 7 (thorough) chars. "Behaves like the pasted script" follows by composition with C03. Outside: real file systems, symlinks, cycles. ' + TRUST,
+        ref='4/C14'),
+})
+
 NOT_APPLICABLE = {
     'C17': 'round-trips live in third-party crates (base64, serde_json, java-properties, std fmt/from_str_radix) that are not in the encoded MIR; '
            'modelling them by specification would make decode(encode(x))=x true by construction (DESIGN.md section 5)',
